@@ -9,7 +9,9 @@
    [VCall] of that call (the integer arguments, the scaled delta / arc tolerance, the descaling factor).
    The run-time tie executes the 64-bit entry point on exactly these arguments and descales with [Scale.descale_paths];
    the outcome must be bit-identical to what the real wrapper returned. *)
-From Clip Require Import base.Geom base.FloatModel model.Scale.
+From Clip Require Import base.Geom.
+From Clip Require Import base.FloatModel.
+From Clip Require Import model.Scale.
 From Coq Require Import ZArith List Floats Bool.
 Import ListNotations.
 Local Open Scope Z_scope.
